@@ -91,7 +91,7 @@ func run(c *mon.Ctx) {
 		check(c, s, fmt.Sprintf("ones/len=%d", n))
 	})
 
-	c.Stream("random", c.N(20000, 1000000), func(i int, r *gen.Rand) {
+	c.Stream("random", c.N(20000, 6000000), func(i int, r *gen.Rand) {
 		n := r.Intn(1025)
 		if r.Chance(4) {
 			n = r.PickInt([]int{3, 4, 5, 7, 8, 9, 15, 16, 17, 183, 184, 185, 187, 188, 1021, 1023, 1024})
@@ -101,7 +101,7 @@ func run(c *mon.Ctx) {
 	})
 
 	// sections the library emits
-	c.Stream("emitted-scte35", c.N(2000, 100000), func(i int, r *gen.Rand) {
+	c.Stream("emitted-scte35", c.N(2000, 1000000), func(i int, r *gen.Rand) {
 		s := scte35.CreateSCTE35()
 		s.SetTier(uint16(r.Intn(4096)))
 		switch r.Intn(3) {
@@ -140,7 +140,7 @@ func run(c *mon.Ctx) {
 		}
 		c.Class(fmt.Sprintf("emitted-scte35/cmd=%d/descs=%d", s.Command(), len(ds)))
 	})
-	c.Stream("emitted-pmt", c.N(2000, 100000), func(i int, r *gen.Rand) {
+	c.Stream("emitted-pmt", c.N(2000, 1000000), func(i int, r *gen.Rand) {
 		// a small reference-built PMT in one packet, filtered to a subset of its streams
 		n := 1 + r.Intn(8)
 		body := []byte{byte(r.Intn(256)), byte(r.Intn(256)), 0xc1 | byte(r.Intn(32))<<1, 0, 0, 0xe1, 0x00, 0xf0, 0x00}
